@@ -20,7 +20,8 @@ CFG = dict(
         "modelled (coq/Trunc/Model.v): encodeOffset/decodeOffset (with the code's mask), appendValuesInto/"
         "appendValuesIntoAnyVLog (any value log, empty values keep offset 0), multiapp Append/ReadAt/DiscardUpto as "
         "a byte log with a set of existing chunk files, readTxOffsetAt, TruncateUptoTx (back walk, front walk, "
-        "deletion loop), readValueAt/ReadValue, ExportTx with the _valBsMux flag, restart; value append and commit "
+        "deletion loop, fetchVLog of an absent id = error), readValueAt/ReadValue, ExportTx with the _valBsMux flag "
+        "(code since 7ccd103; the code before it is kept as `fixed = false`), restart; value append and commit "
         "are separate atomic steps (each is a critical section under a Go mutex: trusted)",
         "NOT modelled: tx-log/commit-log bytes (truncation never touches them: checked directly by the harness "
         "through headers, Alh, ExportTx bytes, index lookups, dual proof), the value cache (VLogCacheSize > 0: direct "
@@ -31,6 +32,8 @@ CFG = dict(
         "it the harness falls back to the 2 s liveness probe",
     ],
     assumptions=[
+        "every value is within MaxValueLen (validateEntries refuses others before anything is written), so the vLen "
+        "guards of ReadValue/ExportTx (85f50b0) are never taken",
         "value-log ids are <= MaxParallelIO = 127 (Options.Validate), so bit 63 of vOff is never set and int64 "
         "comparisons equal comparisons in N",
         "fewer than 2^55 value bytes per value log (decodeOffset clears bit 55)",
